@@ -559,10 +559,20 @@ def stack_depth_obligation(out):
                          f"({res.get('compared')} texts compared)", "time": round(time.time() - t0, 2), "replay": res, "replay_confirmed": status == "sat"})
 
 
+# literals that compare equal and print differently (0.0 / -0.0 / 0 / False, 1 / 1.0 / True): a table keyed by equality that is shared
+# between calls hands the first spelling to every later script
+EQUAL_VALUE_SCRIPTS = [_IMP + "from Reduino.Utils import sleep\n" + body for body in (
+    "m = DCMotor(5, 6, 9)\nm.set_speed(-0.0)\n", "m = DCMotor(5, 6, 9)\nm.set_speed(0.0)\n", "m = DCMotor(5, 6, 9)\nm.set_speed(0)\n", "m = DCMotor(5, 6, 9)\nm.set_speed(False)\n",
+    "m = DCMotor(5, 6, 9)\nm.set_speed(1)\n", "m = DCMotor(5, 6, 9)\nm.set_speed(1.0)\n", "m = DCMotor(5, 6, 9)\nm.set_speed(True)\n",
+    "x = -0.0\ny = 1\nsleep(1)\n", "x = 0.0\ny = 1.0\nsleep(1.0)\n", "x = 0\ny = True\nsleep(True)\n",
+    "led = Led(3)\nled.set_brightness(1)\n", "led = Led(3)\nled.set_brightness(1.0)\n", "led = Led(3)\nled.set_brightness(True)\n",
+)]
+
+
 def replay_differ(tier, seed, out):
     t0 = time.time()
     src = os.path.join(os.environ.get("REDUINO_REPO", "/repo"), "src")
-    corpus = CORPUS + ROLE_SCRIPTS
+    corpus = CORPUS + ROLE_SCRIPTS + EQUAL_VALUE_SCRIPTS
     n = len(CORPUS)
     seeds = [0, 1, 2, 3, 4, 5, 6, 7] if tier != "thorough" else list(range(24))
     if tier == "state-only":
@@ -574,8 +584,11 @@ def replay_differ(tier, seed, out):
     runs = 0
     # every script also as the very first call of a fresh process (state consumed by earlier calls must not matter)
     singles = [[i] for i in range(len(corpus))] + [[i, i] for i in (6, 7, 8) if i < n]
-    roles = list(range(n, len(corpus)))
+    roles = list(range(n, n + len(ROLE_SCRIPTS)))
     histories.append([k for a in roles for b in roles if a != b for k in (a, b)])      # every ordered pair of roles of one identifier
+    eqs = list(range(n + len(ROLE_SCRIPTS), len(corpus)))
+    histories.append(eqs + list(reversed(eqs)))                                        # equal-valued literals, each spelling first once
+    histories.append([k for a in eqs for b in eqs if a != b for k in (b, a)])
     runs_plan = [(hs, order, ()) for hs in seeds for order in ((singles + histories) if hs == 0 else histories if hs < 3 else histories[:1])]
     # the interpreter's optimisation level is part of "the process", not of the text: -O / -OO (asserts and docstrings compiled away)
     runs_plan += [(0, fresh, ("-O",)), (1, fresh, ("-OO",)), (0, list(reversed(fresh)), ("-OO",))]
